@@ -31,6 +31,9 @@ def field(cmp=None, ty="eq", kty="eq", dom=2, nan=False):
 
 
 def ty_src(f):
+    # (f["ref"]: the field holds a SHARED REFERENCE to the value type - it compares and hashes like the value; a concretisation guise only)
+    if f.get("ref"):
+        return "&'static " + ty_src(dict(f, ref=False))
     return {"eq": "::dx_support::V", "noneq": "::dx_support::NE", "pv": "::dx_support::PV", "w": "::dx_support::W", "wc": "::dx_support::Wc"}[f["ty"]]
 
 
@@ -174,7 +177,7 @@ def values_of(P):
         doms = [list(range(f["dom"])) + ([7] if f.get("nan") else []) for f in v["fields"]]
         for tup in itertools.product(*doms):
             vals.append({"v": vi + 1, "f": list(tup)})
-            args = ["%s(%d)" % (ty_src(f), x) for f, x in zip(v["fields"], tup)]
+            args = [("&%s(%d)" % (ty_src(dict(f, ref=False)), x)) if f.get("ref") else ("%s(%d)" % (ty_src(f), x)) for f, x in zip(v["fields"], tup)]
             path = "T" if P["kind"] == "struct" else "T::A%d" % vi
             if v["shape"] == "named":
                 ctors.append("%s { %s }" % (path, ", ".join("f%d: %s" % (j, a) for j, a in enumerate(args))))
@@ -347,6 +350,8 @@ def random_item(rnd):
                 dom = 1
             budget = max(1, budget // dom)
             fs.append(field(c, dom=dom))
+            if rnd.random() < 0.12:
+                fs[-1]["ref"] = True
         return fs
     if kind == "struct":
         shape = rnd.choice(["named", "tuple"])
@@ -394,7 +399,17 @@ def pv_shapes():
     """float-like (partially ordered, NaN) field types: used only where nothing but PartialEq / PartialOrd is derived"""
     def s_pv(c): return mkP("struct", [{"shape": "tuple", "fields": [field(ty="pv", dom=1, nan=True), field(c, ty="pv", dom=2, nan=True), field(ty="pv", dom=1, nan=True)]}])
     def e_pv(c): return mkP("enum", [{"shape": "named", "fields": [field(c, ty="pv", dom=2, nan=True), field(ty="pv", dom=1, nan=True)]}, {"shape": "tuple", "fields": [field(ty="pv", dom=1, nan=True)]}])
-    return [("struct_pv", s_pv), ("enum_pv", e_pv)]
+    def s_rpv(c):
+        P = s_pv(c)
+        for f in P["variants"][0]["fields"]:
+            f["ref"] = True
+        return P
+    def e_rpv(c):
+        P = e_pv(c)
+        P["variants"][0]["fields"][0]["ref"] = True
+        P["variants"][1]["fields"][0]["ref"] = True
+        return P
+    return [("struct_pv", s_pv), ("enum_pv", e_pv), ("struct_ref_pv", s_rpv), ("enum_ref_pv", e_rpv)]
 
 
 def mkP(kind, variants):
